@@ -28,6 +28,20 @@ CLAIMED['C04'] = dict(
          'wins when both kinds of offending pairs exist is not fixed by the property (the model fixes it as the code does).',
     technique='Coq proof (case analysis + frame lemmas) + step-local differential correspondence via vm_compute')
 
+CLAIMED['C01'] = dict(
+    category='proof',
+    text='_select_transitions is modelled loop by loop (four nested sorted_groupby loops, ignored-ancestors set, early '
+         'breaks, exposed event); the Coq theorem C01_selection proves that for EVERY configuration, pending event and '
+         'guard valuation the selected list contains exactly the transitions that fire under the documented rule '
+         '(eventless pre-empt, inner-first, highest priority class per source), C01_guard_view that eventless guards '
+         'never see the event and event-triggered ones see exactly the pending event, C01_consumption which event the '
+         'computed steps carry. Tied to default.py by one-operation correspondence cases (selection, consumed event, '
+         'guard calls with the event they see) evaluated by vm_compute from the implementation\'s own pre-state.',
+    design_ref='DESIGN.md section 6 (C01)',
+    note='Trusted: Coq kernel+VM; hand-written model validated differentially on generated cases only; tree hypothesis '
+         '(ancestors have smaller depth, decidable checker proved sound); guards are pure (WF8).',
+    technique='Coq proof (loop invariants over sorted_groupby) + step-local differential correspondence via vm_compute')
+
 NOT_YET = {}
 
 ALL = ['C%02d' % i for i in range(1, 21)]
